@@ -134,13 +134,9 @@ func libTables(n *Node) (string, string) {
 	rows := make([]string, 0, len(ss))
 	for _, s := range ss {
 		f, ferr := strconv.ParseFloat(s, 64)
-		i0 := obs.None
-		if v, err := strconv.ParseInt(s, 0, 64); err == nil {
-			i0 = obs.Some(obs.Z(v))
-		}
 		var any any
 		jok := json.Unmarshal([]byte(s), &any) == nil
-		rows = append(rows, "("+obs.HS(s)+", (("+obs.N(fbits(f))+", "+obs.Bool(ferr == nil)+"), "+i0+", "+obs.Bool(jok)+"))")
+		rows = append(rows, "("+obs.HS(s)+", (("+obs.N(fbits(f))+", "+obs.Bool(ferr == nil)+"), "+obs.Bool(jok)+"))")
 	}
 	var is []int64
 	for i := range ints {
